@@ -28,6 +28,9 @@ type RemapCase struct {
 	Bound   []float64 `json:"bound"` // cpu of bound workloads created first
 	Change  Op        `json:"change"`
 	Fault   int       `json:"fault"` // -1 none; else the k-th engine resource update after the change began is refused
+	// FailStep (create only): this step of the bound create fails instead, so the create allocates cores,
+	// fails and gives them back — a change of binding and its reversal
+	FailStep string `json:"fail_step,omitempty"`
 }
 
 func genC32World(t *rapid.T) RemapCase {
@@ -52,8 +55,10 @@ func genC32World(t *rapid.T) RemapCase {
 		c.Change.Targets = []int{rapid.IntRange(0, nb-1).Draw(t, "target")}
 		c.Change.Realloc = &world.ReallocSpec{Bind: "keep", DCPU: rapid.SampledFrom([]float64{1, -1, 1, 0.5}).Draw(t, "dcpu")}
 	}
-	if vt.Chance(t, "fault", 60) {
-		c.Fault = rapid.IntRange(0, c.Unbound).Draw(t, "faultOcc")
+	if c.Change.Kind == "create" && vt.Chance(t, "failingCreate", 35) {
+		c.FailStep = rapid.SampledFrom([]string{"engine.VirtualizationStart@n0", "store.AddWorkload", "engine.VirtualizationCreate@n0", "wal.Log(create-workload)"}).Draw(t, "failStep")
+	} else if vt.Chance(t, "fault", 60) {
+		c.Fault = rapid.IntRange(1, c.Unbound+1).Draw(t, "faultOcc")
 	}
 	return c
 }
@@ -115,7 +120,9 @@ func runC32World(x *vt.Ctx, c RemapCase) *vt.Finding {
 	}
 	// the fault stays armed after the call returned: the remap runs asynchronously
 	w.IC.Begin()
-	if c.Fault >= 0 {
+	if c.FailStep != "" {
+		w.IC.SetFault(&world.Fault{Name: c.FailStep, Occ: 1})
+	} else if c.Fault >= 1 {
 		w.IC.SetFault(&world.Fault{Name: "engine.VirtualizationUpdateResource@n0", Occ: c.Fault})
 	}
 	res := runOpWith(w, op, false)
@@ -156,14 +163,21 @@ func runC32World(x *vt.Ctx, c RemapCase) *vt.Finding {
 		x.NonTrivial()
 	}
 	allowed := 0
-	if injected {
+	if injected && c.FailStep == "" {
 		allowed = 1
+	}
+	if c.FailStep != "" {
+		x.Label("failing-create step=%s injected=%v", c.FailStep, injected)
 	}
 	sort.Strings(bad)
 	if len(bad) > allowed {
-		return vt.Failf(fmt.Sprintf("engine-cpuset-stale:change=%s:injected=%v", c.Change.Kind, injected),
-			"after %s (engine refused one resource update: %v) the pool of cores with a whole free core is [%s], but %d unbound workloads sit elsewhere (at most %d may, the one the engine refused): %s",
-			c.Change.Kind, injected, strings.Join(pool, ","), len(bad), allowed, strings.Join(bad, "; "))
+		kind := c.Change.Kind
+		if c.FailStep != "" {
+			kind = "failed-create"
+		}
+		return vt.Failf(fmt.Sprintf("engine-cpuset-stale:change=%s:injected=%v", kind, injected),
+			"after %s (injected failure fired: %v) the pool of cores with a whole free core is [%s], but %d unbound workloads sit elsewhere (at most %d may: a workload whose own engine update was refused): %s",
+			kind, injected, strings.Join(pool, ","), len(bad), allowed, strings.Join(bad, "; "))
 	}
 	return nil
 }
